@@ -15,7 +15,7 @@ ASSUMPTIONS = ["keys modelled as Z; family keys/values mapped order-isomorphical
 SIZES = [(1, 2), (2, 2), (2, 3), (3, 2), (3, 3), (4, 4), (6, 3)]
 
 
-def gen_history(rng, kind, u, length, avoid0=False):
+def gen_history(rng, kind, u, length, avoid0=False, selfops=False):
     setlike = kind in ("TreeSet", "Set")
     calls = []
     phase_len = max(3, length // rng.choice([2, 3, 4]))
@@ -43,6 +43,8 @@ def gen_history(rng, kind, u, length, avoid0=False):
             if r < 0.2:
                 lst = [rng.randrange(1 if avoid0 else 0, u) for _ in range(rng.randint(0, 6))]
                 calls.append((rng.choice(["supdate", "ior", "iand", "isub", "ixor", "isdisjoint"]), lst))
+                if selfops and calls[-1][0] in ("ior", "iand", "isub", "ixor") and rng.random() < 0.15:
+                    calls[-1] = (calls[-1][0], "self")      # the container itself as operand; resolved by resolve_self()
             elif ins:
                 calls.append((rng.choice(["add", "add", "add", "supdate"]), k) if rng.random() < 0.9 else ("supdate", [k, (k + 1) % u]))
                 if calls[-1][0] == "supdate" and not isinstance(calls[-1][1], list):
@@ -67,7 +69,21 @@ def gen_history(rng, kind, u, length, avoid0=False):
                 n = rng.choice(["del", "del", "pop", "popd", "popitem"])
                 calls.append(("popitem",) if n == "popitem" else ((n, k, v) if n == "popd" else (n, k)))
     calls.append(("keys",))
-    return calls
+    return resolve_self(calls)
+
+
+def resolve_self(calls):
+    """replace (op, "self") by (op, <keys the container holds at that point>, "self")"""
+    if not any(len(c) > 1 and c[1] == "self" for c in calls):
+        return calls
+    from harness.treelib import RefMap
+    ref, out = RefMap(), []
+    for c in calls:
+        if len(c) > 1 and c[1] == "self":
+            c = (c[0], [k for k, _ in ref.items()], "self")
+        ref.call(c)
+        out.append(c)
+    return out
 
 
 def height(sh):
@@ -79,6 +95,7 @@ def height(sh):
 def run(ctx):
     rng = ctx.rng
     nhist = ctx.n(420, 12000)
+    nrej = [0]
     fams = ALL_FAMS
     terms, meta = [], []
     heights, kinds_seen, fam_seen = {}, {}, {}
@@ -96,16 +113,43 @@ def run(ctx):
         keymodes = {"O": ["none-int", "str", "int"]}.get(fn[0], [None, "extreme"] if fn != "fs" else [None])
         mode = rng.choice(keymodes)
         # a plain python list holding None and ints cannot be sorted by python (used by &= in the Python version)
-        calls = gen_history(rng, kind, u, length, avoid0=(mode == "none-int"))
+        calls = gen_history(rng, kind, u, length, avoid0=(mode == "none-int"), selfops=True)
         ctx.progress({"family": fn, "kind": kind, "mode": mode, "sizes": [ml, mi], "calls": calls})
         ref = RefMap()
         want = [ref.call(c) for c in calls]
         results = {}
+        rej_at = {ci for ci in range(len(calls)) if rng.random() < 0.05}
         for impl in ("C", "Py"):
             env = TreeEnv(fn, kind, impl, mode)
             with env.sized(ml, mi):
                 t = env.new()
-                outs = [env.call(t, c) for c in calls]
+                outs = []
+                accepted = False
+                for ci, c in enumerate(calls):
+                    outs.append(env.call(t, c))
+                    if ci in rej_at:
+                        # a write the family rejects raises and leaves the contents exactly as they were
+                        from harness.props.c03 import rejected_write
+                        from harness.props.c09 import call_raw
+                        rj = rejected_write(rng, env, kind)
+                        if rj is not None:
+                            snap = list(t) if setlike else list(t.items())
+                            r = call_raw(t, kind, rj[0], rj[1], rj[2])
+                            now = list(t) if setlike else list(t.items())
+                            nrej[0] += 1
+                            if r[0] == "ok":
+                                accepted = True     # accepted after all (C13 / C09 decide whether that is right): the model no longer applies
+                                break
+                            if now != snap:
+                                ctx.oracle_failure("%s:%s:rejected-write-modifies:%s" % (impl, kind, rj[0]),
+                                                   "%s%s/%s sizes=(%s,%s): after call #%d the write %s(%r, %r) raised %s but the contents changed (%d -> %d entries)" % (
+                                                       fn, kind, impl, ml, mi, ci, rj[0], rj[1], rj[2], r[0], len(snap), len(now)),
+                                                   {"family": fn, "kind": kind, "impl": impl, "mode": mode, "sizes": [ml, mi], "calls": calls[:ci + 1], "rejected": [rj[0], repr(rj[1]), repr(rj[2])]})
+                                accepted = True
+                                break
+                if accepted:
+                    results[impl] = None
+                    continue
                 if kind in ("BTree", "TreeSet"):
                     sh = env.shape(t)
                     inv = walk_invariants(env, t, ml, mi)
@@ -129,6 +173,8 @@ def run(ctx):
                                    {"family": fn, "kind": kind, "impl": impl, "mode": mode, "sizes": [ml, mi], "calls": calls})
         # ---- correspondence with the model (C and Python separately: &= differs in shape)
         for impl in ("C", "Py"):
+            if results[impl] is None:
+                continue
             outs, sh, items = results[impl]
             vs = "true" if (impl == "C" and fn[1] in "IULQF" and not setlike and fn != "fs") else "false"
             terms.append("TC %d %d %s %s [%s] [%s] %s [%s]" % (
@@ -137,7 +183,7 @@ def run(ctx):
                 shape_term(sh) if sh is not None else "WAnyS",
                 "; ".join("KV %s %s" % (caseutil.z(a), caseutil.z(b)) for a, b in items)))
             meta.append((fn, kind, impl, mode, ml, mi, calls))
-        sh = results["C"][1]
+        sh = (results["C"] or results["Py"] or (None, None))[1]
         h = height(sh) if sh else 0
         heights[h] = heights.get(h, 0) + 1
         kinds_seen[kind] = kinds_seen.get(kind, 0) + 1
@@ -154,6 +200,7 @@ def run(ctx):
     ctx.cov["final_tree_heights"] = {str(k): v for k, v in sorted(heights.items())}
     ctx.cov["kinds"] = kinds_seen
     ctx.cov["families_exercised"] = len(fam_seen)
+    ctx.cov["rejected_writes_checked"] = nrej[0]
 
 
 def replay(ctx, data):
